@@ -149,14 +149,28 @@ impl<'tcx> Cx<'tcx> {
                 // `?`, `for`, `while let`, async desugarings are the user's own control flow
                 rustc_span::ExpnKind::Desugaring(_) | rustc_span::ExpnKind::AstPass(_) => {}
                 rustc_span::ExpnKind::Root => break,
-                rustc_span::ExpnKind::Macro(..) => match data.macro_def_id {
-                    Some(d) => {
-                        if !d.is_local() {
-                            return true;
+                rustc_span::ExpnKind::Macro(_, name) => {
+                    // noise: logging and formatting machinery. Macros that carry the user's own control flow
+                    // (matches!, assert!, cfg_if!, thread_local!, ...) are NOT noise.
+                    let n = name.as_str();
+                    let noisy_name = matches!(
+                        n,
+                        "format_args" | "format" | "const_format_args" | "format_args_nl" | "print" | "println" | "eprint"
+                            | "eprintln" | "write" | "writeln" | "panic" | "unreachable" | "todo" | "unimplemented"
+                            | "concat" | "stringify" | "line" | "file" | "column" | "module_path"
+                    );
+                    let noisy_crate = match data.macro_def_id {
+                        Some(d) => {
+                            let c = self.tcx.crate_name(d.krate);
+                            let c = c.as_str();
+                            c.starts_with("tracing") || c == "log"
                         }
+                        None => false,
+                    };
+                    if noisy_name || noisy_crate {
+                        return true;
                     }
-                    None => return true, // builtin macro
-                },
+                }
             }
             s = data.call_site;
         }
